@@ -24,7 +24,8 @@ Record sobs := mkSO {
   so_dc : Z; so_ds : Z;         (* envelopes handed so far to the server's / the client's transport *)
   so_srvg : Z;                  (* live goroutines of the server side *)
   so_serve : bool;              (* Serve has returned *)
-  so_hbusy : list Z }.          (* calls whose handler is parked inside an operation (RecvMsg, SendMsg, ...) *)
+  so_hbusy : list Z;            (* calls whose handler is parked inside an operation (RecvMsg, SendMsg, ...) *)
+  so_urun : Z }.                (* unary handler invocations that have not returned *)
 
 Record step := mkStep { st_kind : skind; st_acts : list act; st_co : obs; st_so : sobs }.
 
@@ -350,6 +351,26 @@ Definition trailer_ok (steps : list step) (c2s s2c : list penv) (ids : list Z) :
 Definition srv_faulty (steps : list step) : bool :=
   existsb (fun st => match st_kind st with KSrvFail => true | _ => false end) steps.
 
+(* presence of the unary response ("exactly one response per unary request"; proto_s2c true [] accepts an absent one): at
+   the end of a run in which nothing failed - Serve serving, every envelope handed to the server, no unary method still
+   running, no back-pressure on the server's Writes left - every id whose ONLY client envelope is a unary-method request
+   with a header has exactly one envelope from the server *)
+Definition unary_answered (steps : list step) (c2s s2c : list penv) : bool :=
+  match rev steps with
+  | [] => true
+  | lst :: _ =>
+      let so := st_so lst in
+      if so_serve so || negb (so_dc so =? so_wc so) || negb (so_urun so =? 0) || hard_faulty steps || faulty steps then true
+      else forallb (fun i => match proj i c2s with
+                             | [e] => match p_hdr e with
+                                      | Some h => if (h_meth h =? 1) && has (p_body e) && negb (p_rst e) && negb (h_md h =? -1)
+                                                  then zlen (proj i s2c) =? 1 else true
+                                      | None => true
+                                      end
+                             | _ => true
+                             end) (ids_of c2s [])
+  end.
+
 Definition spec_c06 (c : cwcase) : list nat :=
   match c with
   | CwRun m steps c2s s2c ids =>
@@ -358,7 +379,8 @@ Definition spec_c06 (c : cwcase) : list nat :=
        | MClient => []
        | _ => (if monitor_s2c c2s s2c then [] else [3%nat]) ++
               (if srv_faulty steps || trailer_ok steps c2s s2c ids then [] else [4%nat]) ++
-              (if srv_emits_ok 0 steps c2s s2c then [] else [5%nat])
+              (if srv_emits_ok 0 steps c2s s2c then [] else [5%nat]) ++
+              (if unary_answered steps c2s s2c then [] else [7%nat])
        end)
   | CwWedged _ _ _ _ _ => [6%nat]
   end.
